@@ -1015,10 +1015,19 @@ func (c *compiler) evalForExpression(node *ast.ForExpression) (interface{}, erro
 	ret := []interface{}{}
 	switch riter.Kind() {
 	case reflect.Map:
-		keys := riter.MapKeys()
+		keys := make([]reflect.Value, 0, riter.Len())
+		seen := make([]reflect.Value, 0, riter.Len())
+		for mi := riter.MapRange(); mi.Next(); {
+			keys = append(keys, mi.Key())
+			seen = append(seen, mi.Value())
+		}
 		for i := 0; i < len(keys); i++ {
 			k := keys[i]
 			v := riter.MapIndex(k)
+			if !v.IsValid() {
+				// a key that cannot be looked up again (a NaN) keeps the value it had when the loop started
+				v = seen[i]
+			}
 			c.ctx.Set(node.KeyName, k.Interface())
 			c.ctx.Set(node.ValueName, v.Interface())
 
